@@ -315,7 +315,7 @@ def monotonic_release(ctx) -> None:
     for push in pushes:
         ok = bool(cmps) and graph.must_pass(cfg.ENTRY, push, via=via)
         ctx.check(ok, 'C05.monotonic', fn, 'registry.push is reachable only through the version comparison or the no-previous-release handler', push, key='put:dominance', path=graph.path(cfg.ENTRY, push, avoid=via))
-    mm = [r for r in core.walk_local(fn.node) if isinstance(r, ast.Raise) and ('project != self.key', True) in cfg.cguards(r, fn.node)]
+    mm = [r for r in core.walk_local(fn.node) if isinstance(r, ast.Raise) and cfg.cg(('project != self.key', True))[0] in cfg.cguards(r, fn.node)]
     ctx.check(len(mm) == 1 and any(isinstance(a, ast.Assign) and core.src(a) == 'project = package.manifest.name' for a in core.walk_local(fn.node)), 'C05.monotonic', fn, 'a package of another project is refused (its releases must not enter this project\'s history)', mm[0] if mm else fn.node, key='put:project')
     ret = [r for r in fn.body if isinstance(r, ast.Return)]
     ctx.check(len(ret) == 1 and core.src(ret[0].value) == 'self.get(release)' and any(core.src(a) == 'release = package.manifest.version' for a in core.walk_local(fn.node)), 'C05.monotonic', fn, 'the published release is the package\'s own version', ret[0] if ret else fn.node, key='put:return')
